@@ -296,6 +296,8 @@ Definition fs_put (fs : fsys) (p : nat) (f : @file T) : fsys := (p, f) :: fs.
 Inductive io_op :=
 | OExportList (p : nat) (header : list (@line T)) (data : list T) (dim : T)
 | OExportTable (p : nat) (header : list (@line T)) (data : list (list T)) (dims : list T)
+| OExportFunction (p : nat) (header : list (@line T)) (func : T -> T) (xs : list T) (dims : list T)
+| OExportFunctionRange (p : nat) (header : list (@line T)) (func : T -> T) (xmin xmax : T) (steps : nat) (dims : list T) (logarithmic : bool)
 | OImportList (p : nat) (dim : T) (ignored : nat)
 | OImportTable (p : nat) (dims : list T) (ignored : nat)
 | OCountLines (p : nat).
@@ -306,6 +308,9 @@ Definition io_step (fs : fsys) (o : io_op) : res (fsys * io_out) :=
   match o with
   | OExportList p h data dim => Ok (fs_put fs p (export_list Ops fmt6 h data dim), RUnit)
   | OExportTable p h data dims => rbind (export_table Ops fmt6 h data dims) (fun f => Ok (fs_put fs p f, RUnit))
+  | OExportFunction p h func xs dims => rbind (export_function_list Ops fmt6 h func xs dims) (fun f => Ok (fs_put fs p f, RUnit))
+  | OExportFunctionRange p h func a b steps dims lg =>
+      rbind (export_function_range Ops fmt6 h func a b steps dims lg) (fun f => Ok (fs_put fs p f, RUnit))
   | OImportList p dim ign => rbind (import_list Ops (fs_get fs p) dim ign) (fun l => Ok (fs, RList l))
   | OImportTable p dims ign => rbind (import_table Ops (fs_get fs p) dims ign) (fun t => Ok (fs, RTable t))
   | OCountLines p => Ok (fs, RCount (count_lines (fs_get fs p)))
@@ -318,5 +323,8 @@ Fixpoint io_run (fs : fsys) (ops : list io_op) : res (fsys * list io_out) :=
   end.
 
 Definition writes (o : io_op) : option nat :=
-  match o with OExportList p _ _ _ | OExportTable p _ _ _ => Some p | _ => None end.
+  match o with
+  | OExportList p _ _ _ | OExportTable p _ _ _ | OExportFunction p _ _ _ _ | OExportFunctionRange p _ _ _ _ _ _ _ => Some p
+  | _ => None
+  end.
 End Sessions.
